@@ -14,7 +14,7 @@ from gvmon.models import dialect as M
 from gvmon.monitors import contracts
 
 FORMS = ["path", "gz", "string", "list", "generator", "iterator_object", "DataIterator", "FeatureDB"]
-RULE = ("uniform-regime annotations of 0..25 lines in the 36 dialect points; each supplied in 8 input forms (path, .gz, "
+RULE = ("uniform-regime annotations of 0..25 lines in the 48 dialect points; each supplied in 8 input forms (path, .gz, "
         "from_string, list of Features, one-shot generator, __next__ object, DataIterator, FeatureDB) x checklines in "
         "{0,1,2,n-1,n,n+1,n+2}: yielded sequence == the file's lines, database content dump == reference import; a "
         "recording transform (modify / skip by falsy values) and inspect() with random look_for subsets and limits in "
